@@ -18,4 +18,8 @@ def run(ctx):
         bfs = [("hot3", hot, 3), ("ep3", ep, 3), ("all2", allr, 2)]
         walks = [dict(label="walk-hot", tags="check,clock,castle,promo,ep", walks=40, plies=80, shards=28),
                  dict(label="walk-all", tags="", walks=20, plies=120, shards=14)]
-    board_pipeline(ctx, bfs, walks)
+    fam = [("promo-slice", "Families_pos.cfg", {"VERIF_FAMILY": "promo", "VERIF_VARIANT": "rbq"[ctx.seed % 3], "VERIF_FILE": (ctx.seed * 5) % 8,
+                                                 "VERIF_SLICE": ctx.seed % 32, "VERIF_SLICES": 32})] if ctx.tier == "quick" else \
+          [("promo-%s-%d" % (v, f), "Families_pos.cfg", {"VERIF_FAMILY": "promo", "VERIF_VARIANT": v, "VERIF_FILE": f, "VERIF_SLICE": 0, "VERIF_SLICES": 2})
+           for v in "rbq" for f in range(8)]
+    board_pipeline(ctx, bfs, walks, fam)
